@@ -26,7 +26,13 @@ pub broadcast axiom fn axiom_string_eq_spec(a: String, b: String)
 pub broadcast axiom fn axiom_string_ext(a: String, b: String)
     requires #[trigger] a@ == #[trigger] b@,
     ensures a == b;
+// allocation bound: a Vec / HashMap whose elements occupy >= 8 bytes cannot hold usize::MAX elements (capacity * size <= isize::MAX)
+pub broadcast axiom fn axiom_vec_rc_json_len(v: Vec<Rc<JsonValue>>)
+    ensures #[trigger] v@.len() < usize::MAX;
+pub broadcast axiom fn axiom_hashmap_len<V>(m: std::collections::HashMap<String, V>)
+    ensures #[trigger] m@.len() < usize::MAX;
 pub broadcast group group_clone_is_copy {
+    axiom_vec_rc_json_len, axiom_hashmap_len,
     axiom_string_obeys_eq_spec, axiom_string_eq_spec,
     axiom_string_obeys_key_model,
     axiom_cloned_result_pair, axiom_cloned_rc_json, axiom_cloned_opt_json, axiom_cloned_json, axiom_cloned_string,
